@@ -1004,7 +1004,10 @@ func (self *LockManager) ProcessLockData(command *protocol.LockCommand, lock *Lo
 			data[valueOffset], data[valueOffset+1], data[valueOffset+2], data[valueOffset+3], data[valueOffset+4], data[valueOffset+5], data[valueOffset+6], data[valueOffset+7] = byte(incrValue), byte(incrValue>>8), byte(incrValue>>16), byte(incrValue>>24), byte(incrValue>>32), byte(incrValue>>40), byte(incrValue>>48), byte(incrValue>>56)
 			self.currentData = NewLockManagerData(data, protocol.LOCK_DATA_COMMAND_TYPE_INCR, command.Flag&protocol.LOCK_FLAG_FROM_AOF != 0)
 		} else {
-			valueOffset := currentLockData.GetValueOffset()
+			valueOffset := 6
+			if currentLockData != nil {
+				valueOffset = currentLockData.GetValueOffset()
+			}
 			if valueOffset <= 6 {
 				self.currentData = NewLockManagerData([]byte{10, 0, 0, 0, protocol.LOCK_DATA_COMMAND_TYPE_SET, protocol.LOCK_DATA_FLAG_VALUE_TYPE_NUMBER,
 					byte(incrValue), byte(incrValue >> 8), byte(incrValue >> 16), byte(incrValue >> 24), byte(incrValue >> 32), byte(incrValue >> 40), byte(incrValue >> 48), byte(incrValue >> 56)},
